@@ -71,6 +71,25 @@ static inline StringSet catalogue_set(uint32_t idx, int max_n) {
     s.v.erase(std::unique(s.v.begin(), s.v.end()), s.v.end());
     return s;
   }
+  if (idx % 16 == 11) {
+    // equal-length, incompressible: 40..200 strings of one length L in 1..3, drawn uniformly from an alphabet with
+    // about twice as many words of that length as strings -- (almost) no repeated pair for Re-Pair to replace, so
+    // every string keeps the maximal sequence length and the deepest level of the DAC/VLS structures is as
+    // populated as the first (seeded change C07-r5-1: an over-read that needs > 32 sequences at the deepest level)
+    s.lenprof = 5;
+    int L = 1 + (int)((idx / 16) % 3);
+    s.alpha = L == 1 ? 253 : (L == 2 ? 16 : 8);
+    n = std::min(max_n, 40 + (int)r.below(161));
+    int guard3 = 0;
+    while ((int)s.v.size() < n && guard3++ < n * 20 + 100) {
+      std::string t;
+      for (int i = 0; i < L; i++) t += (char)(L == 1 ? 0x02 + (int)r.below(253) : 'a' + (int)r.below((uint64_t)s.alpha));
+      s.v.push_back(t);
+      std::sort(s.v.begin(), s.v.end(), ubyte_less);
+      s.v.erase(std::unique(s.v.begin(), s.v.end()), s.v.end());
+    }
+    return s;
+  }
   std::string common;
   if (s.lenprof == 2 || s.lenprof == 3) { int L = (int)r.range(128, 160); for (int i = 0; i < L; i++) common += (char)gen_sym(r, s.alpha, s.freqprof); }
   int guard = 0;
